@@ -32,6 +32,30 @@ ALLOWED = {
 INGEST_GUARDS = ('::rfind', '::find', 'String::len', '::starts_with')
 
 
+def _is_carrier(F, fn, params, depth):
+    """fn only hands the values of `params` on: every call that receives one of them is a non-decision, an allowed escape-aware
+    function, or again a carrier; no branch is taken on them directly"""
+    if depth > 3 or fn not in F.fn_bodies:
+        return False
+    params = set(params)
+    for (sb, op, arms, other) in Ru.switches(F, fn):
+        if any(rr[0] == 'param' and rr[1] in params for rr in F.trace(fn, op)):
+            return False
+    for i, c in F.calls(fn):
+        idx = [k for k, a in enumerate(c['args']) if any(rr[0] == 'param' and rr[1] in params for rr in F.trace(fn, a))]
+        if not idx:
+            continue
+        r = callee_of(c)
+        if r.endswith(NON_DECISION) and not r.endswith('String::len'):
+            continue
+        if r in ALLOWED:
+            continue
+        if r in F.fn_bodies and _is_carrier(F, r, [k + 1 for k in idx], depth + 1):
+            continue
+        return False
+    return True
+
+
 def run(F, tier, res):
     res.assumptions += ['escape-aware functions (ansi module, style-section parsers) treat coloured and uncoloured text alike: value-level, not decided here']
     res.not_decided += ['byte equality of the two runs', 'moved-line colour preservation and map-styles (value-level)',
@@ -79,6 +103,12 @@ def run(F, tier, res):
                     continue
                 ok += 1
                 kinds.setdefault('ingest guard', set()).add(r.split('::')[-1])
+                continue
+            # a local helper that merely carries the raw text on to non-deciding / escape-aware callees (extract-function refactorings)
+            tainted_idx = [k for k, a in enumerate(c['args']) if any(rr[0] == 'param' and rr[2] and rr[2][-1] == 'raw_line' for rr in F.trace(p, a))]
+            if r in F.fn_bodies and _is_carrier(F, r, [k + 1 for k in tainted_idx], 0):
+                ok += 1
+                kinds.setdefault('carrier helper', set()).add(r.split('::')[-1])
                 continue
             res.violate('RAW-DECISION', 'fn=%s;callee=%s' % (p, r), 'a decision / parse is taken on raw_line (escape sequences included) by `%s`: the answer differs between a diff that git has coloured and the same diff uncoloured' % r,
                         where=F.span_of_call(c))
